@@ -149,7 +149,8 @@ ApplySub(f, args, st) == LET r == ApplyFn(f, args, [st EXCEPT !.depth = @ + 1]) 
 
 \* the LAST form is in tail position
 EvBody(xs, i, e, st) ==
-  IF i > Len(xs) THEN R("val", NilV, st)
+  \* (an empty body evaluates to nil: the evaluator is handed the constant nil in this scope)
+  IF i > Len(xs) THEN R("val", NilV, Note(NilV, e, st))
   ELSE IF i = Len(xs) THEN Ev(xs[i], e, st)
   ELSE LET r == EvSub(xs[i], e, st) IN IF ~Ok(r) THEN r ELSE EvBody(xs, i + 1, e, r.st)
 
